@@ -18,6 +18,16 @@ from amaranth import *
 from ..harness import Harness
 from ..engine import Query
 
+# FINDINGS
+#  fixed  /repo e6f8dce "fix: LFPSDetector tracks the signaling edge on every cycle"
+#         rising_edge_detected() was instantiated inside the WAIT_FOR_NEXT_BURST state, so its history register only
+#         updated there: a burst starting in the first cycle after the FSM fell back to WAIT (runt pulse + one idle cycle,
+#         or a repeat period of exactly max+1 cycles) was never measured -- e.g. a whole warm-reset burst was ignored.
+#         Caught by `reported_inside_window` (all three detectors).  The scenario predicate
+#         kf_burst_starts_as_detector_rearms describes exactly these envelopes (unused now that the defect is fixed).
+#  noted  (outside the bounds) LFPSGenerator computes ceil(f*t) in floating point: at 5 MHz the repeat count is 51 instead of
+#         50 and, with the extra IDLE cycle, the period is 52 cycles; only float-exact frequencies (2, 4 MHz) are checked.
+
 PROP = "C42"
 ENCODED = [
     "luna/gateware/usb/usb3/physical/lfps.py: LFPSDetector.elaborate (burst/repeat windows, FSM, last_iteration_matched)",
